@@ -15,6 +15,18 @@ def io_histories(tier, rng, n):
         yield c
 
 
+def name_table_line(case, kind, src, dst, d):
+    """`textrtn`: the text layer for string node ids; the line carries str(node) for every node of the case
+    (model: DynetxModel/TextNames.lean, theorems C09_textN_roundtrip / C10_textN_roundtrip)"""
+    import impl
+    codes = sorted(gen.nodes_of(case["ops"]))
+    tab = []
+    for c in codes:
+        nm = str(impl.mk_id(c, case["ids"]))
+        tab.append("%d %d %s" % (c, len(nm), " ".join(str(ord(ch)) for ch in nm)))
+    return ("textrtn %d %d %d %d %d %s" % (kind, src, dst, d, len(codes), " ".join(tab))).rstrip()
+
+
 def pres_keys(directed, pres):
     P = {}
     for (u, v), (_, ts) in pres_map(pres).items():
@@ -60,6 +72,8 @@ class C09:
         if case.get("ids", "int") == "int":
             # the exact text (model: DynetxModel/Text.lean) and the graph parsed back from it; correspondence only
             L += ["textrt 0 0 4 %d" % d, "dump 4"]
+        elif case.get("ids") in ("str", "dstr"):
+            L += [name_table_line(case, 0, 0, 4, d), "dump 4"]
         return L
 
     @staticmethod
@@ -177,6 +191,8 @@ class C10:
               "pres 3 -2 60", "dump 3"]
         if case.get("ids", "int") == "int":
             L += ["textrt 1 0 4 %d" % d, "dump 4"]
+        elif case.get("ids") in ("str", "dstr"):
+            L += [name_table_line(case, 1, 0, 4, d), "dump 4"]
         return L
 
     @staticmethod
